@@ -177,3 +177,130 @@ def gamma(x):
     import scipy.special
 
     return scipy.special.gamma(x)
+
+
+# --------------------------------------------------------------------------------------
+# truncated Taylor arithmetic (jets) around a point: coefficients c_k = f^(k)(x0)/k!
+
+
+class Jet:
+    __slots__ = ("c",)
+    ORDER = 6
+
+    def __init__(self, coeffs):
+        c = list(coeffs)[: Jet.ORDER + 1]
+        c += [0.0] * (Jet.ORDER + 1 - len(c))
+        self.c = c
+
+    @staticmethod
+    def variable(x0=0.0):
+        return Jet([x0, 1.0])
+
+    @staticmethod
+    def lift(x):
+        return x if isinstance(x, Jet) else Jet([x])
+
+    def __add__(self, o):
+        o = Jet.lift(o)
+        return Jet([a + b for a, b in zip(self.c, o.c)])
+
+    __radd__ = __add__
+
+    def __neg__(self):
+        return Jet([-a for a in self.c])
+
+    def __sub__(self, o):
+        return self + (-Jet.lift(o))
+
+    def __rsub__(self, o):
+        return Jet.lift(o) - self
+
+    def __mul__(self, o):
+        if not isinstance(o, Jet):
+            return Jet([a * o for a in self.c])
+        n = Jet.ORDER + 1
+        out = [0.0] * n
+        for i, a in enumerate(self.c):
+            if not is_sym(a) and a == 0:
+                continue
+            for j, b in enumerate(o.c):
+                if i + j >= n:
+                    break
+                if not is_sym(b) and b == 0:
+                    continue
+                out[i + j] = out[i + j] + a * b
+        return Jet(out)
+
+    __rmul__ = __mul__
+
+    def inverse(self):
+        n = Jet.ORDER + 1
+        a0 = self.c[0]
+        out = [1 / a0] + [0.0] * (n - 1)
+        for k in range(1, n):
+            s = 0.0
+            for j in range(1, k + 1):
+                s = s + self.c[j] * out[k - j]
+            out[k] = -s / a0
+        return Jet(out)
+
+    def __truediv__(self, o):
+        if not isinstance(o, Jet):
+            return Jet([a / o for a in self.c])
+        return self * o.inverse()
+
+    def __rtruediv__(self, o):
+        return Jet.lift(o) * self.inverse()
+
+    def __pow__(self, p):
+        if isinstance(p, (int, np.integer)) and p >= 0:
+            r = Jet([1.0])
+            for _ in range(int(p)):
+                r = r * self
+            return r
+        if isinstance(p, (int, np.integer)):
+            return (self ** (-p)).inverse()
+        # real exponent: b0^p (1+u)^p with u = (self - b0)/b0, generalised binomial series
+        b0 = self.c[0]
+        u = Jet([0.0] + [a / b0 for a in self.c[1:]])
+        base = S.sym_pow(b0, p) if (is_sym(b0) or is_sym(p)) else b0**p
+        term = Jet([1.0])
+        acc = Jet([1.0])
+        coef = 1.0
+        for k in range(1, Jet.ORDER + 1):
+            coef = coef * (p - (k - 1)) / k
+            term = term * u
+            acc = acc + term * coef
+        return acc * base
+
+    def exp(self):
+        """exp(c0) * exp(u), u without constant term"""
+        c0 = self.c[0]
+        e0 = 1.0 if (not is_sym(c0) and c0 == 0) else (S.sym_exp(c0) if is_sym(c0) else math.exp(c0))
+        u = Jet([0.0] + self.c[1:])
+        term = Jet([1.0])
+        acc = Jet([1.0])
+        fact = 1
+        for k in range(1, Jet.ORDER + 1):
+            fact *= k
+            term = term * u
+            acc = acc + term * Fraction(1, fact)
+        return acc * e0
+
+    def log(self):
+        """log(c0) + log(1+u)"""
+        c0 = self.c[0]
+        l0 = 0.0 if (not is_sym(c0) and c0 == 1) else (S.sym_log(c0) if is_sym(c0) else math.log(c0))
+        u = Jet([0.0] + [a / c0 for a in self.c[1:]])
+        term = Jet([1.0])
+        acc = Jet([l0])
+        for k in range(1, Jet.ORDER + 1):
+            term = term * u
+            acc = acc + term * Fraction((-1) ** (k + 1), k)  # exact series coefficient (a float 1/3 would leave a 1e-16 residual)
+        return acc
+
+    def conjugate(self):
+        return self
+
+    def __repr__(self):
+        return f"Jet({self.c})"
